@@ -119,14 +119,72 @@ def parsed_of(elems):
     return [(r, q_thousandths(qs)) for r, qs in elems]
 
 
-def make_header(text, via="class"):
-    from webob.acceptparse import create_accept_language_header
-    if via == "request":
-        from webob import Request
+VIAS_VALID = ["create", "ctor", "subclass", "request", "environ", "request-set", "request-set-list", "request-set-header",
+              "request-subclass", "add", "radd", "add-header", "add-list", "radd-list", "copy"]
+VIAS_NOHDR = ["create", "ctor", "request", "environ", "request-set", "request-del", "request-subclass", "copy"]
+
+
+def make_header(text, via="class", elems=None):
+    """Every way of arriving at a header object for the header text `text` (None = no header).  `elems` (the generated
+    (range, ';q=..') pairs) is needed by the routes that build the header from Python values or by addition."""
+    from webob import acceptparse as ap
+    from webob import Request
+    if via in ("class", "create"):
+        return ap.create_accept_language_header(text)
+    if via == "ctor":
         if text is None:
-            return Request.blank("/").accept_language
-        return Request.blank("/", headers={"Accept-Language": text}).accept_language
-    return create_accept_language_header(text)
+            return ap.AcceptLanguageNoHeader()
+        try:
+            return ap.AcceptLanguageValidHeader(text)
+        except ValueError:
+            return ap.AcceptLanguageInvalidHeader(text)
+    if via == "subclass":
+        class MyHeader(ap.AcceptLanguageValidHeader):
+            pass
+        return MyHeader(text)
+    if via == "copy":
+        return ap.create_accept_language_header(text).copy()
+    if via in ("add", "radd", "add-header", "add-list", "radd-list"):
+        if elems is None or len(elems) < 2:
+            return ap.create_accept_language_header(text) + ""
+        k = 1 + (len(text) % (len(elems) - 1))
+        left, right = header_text(elems[:k]), header_text(elems[k:])
+        if via == "add":
+            return ap.create_accept_language_header(left) + right
+        if via == "add-header":                      # header object + header object
+            return ap.create_accept_language_header(left) + ap.create_accept_language_header(right)
+        if via == "add-list":                        # header object + list of (range, qvalue) pairs
+            return ap.create_accept_language_header(left) + [(r, q_thousandths(qs) / 1000.0) for r, qs in elems[k:]]
+        if via == "radd-list":
+            return tuple((r, q_thousandths(qs) / 1000.0) for r, qs in elems[:k]) + ap.create_accept_language_header(right)
+        return left + ap.create_accept_language_header(right)
+    if via == "request":
+        return (Request.blank("/") if text is None else Request.blank("/", headers={"Accept-Language": text})).accept_language
+    if via == "environ":
+        env = {"REQUEST_METHOD": "GET", "wsgi.url_scheme": "https", "SERVER_NAME": "h", "SERVER_PORT": "443"}
+        if text is not None:
+            env["HTTP_ACCEPT_LANGUAGE"] = text
+        return Request(env).accept_language
+    if via == "request-subclass":
+        class MyRequest(Request):
+            pass
+        return (MyRequest.blank("/") if text is None else MyRequest.blank("/", headers={"Accept-Language": text})).accept_language
+    req = Request.blank("/", headers={"Accept-Language": "xx;q=0.1"})
+    if via == "request-set":
+        req.accept_language = text                       # set after construction (None removes the header)
+    elif via == "request-del":
+        del req.accept_language
+    elif via == "request-set-header":
+        req.accept_language = ap.create_accept_language_header(text)
+    elif via == "request-set-list":
+        if elems is None:
+            req.accept_language = text
+        else:
+            val = [(r, q_thousandths(qs) / 1000.0) for r, qs in elems]
+            req.accept_language = val if len(text) % 2 else tuple(val)
+    else:
+        raise ValueError(via)
+    return req.accept_language
 
 
 def canon_q(q):
@@ -140,43 +198,97 @@ def impl_parsed(h):
     return [(r, canon_q(q)) for r, q in h.parsed]
 
 
-def impl_bf(h, tags):
-    try:
-        out = h.basic_filtering(language_tags=list(tags))
-        return [[t, canon_q(q)] for t, q in out]
-    except Exception as e:  # noqa
-        return Err(type(e).__name__)
+class _Tag(str):
+    """Offered tags are handed over as instances of a str subclass so that "returned in its original spelling" can be
+    checked as identity (tags[index] itself), also among equal offers."""
+    __slots__ = ()
+
+
+class _CallableObject:
+    def __call__(self):
+        return SENTINEL
+
+
+DKINDS = ["none", "value", "callable", "callable-object", "zero", "empty", "false"]
+_DEFAULT_OBJECTS = {"value": SENTINEL, "zero": 0, "empty": _Tag(""), "false": False}
 
 
 def mk_default(kind):
     if kind == "none":
         return None
-    if kind == "value":
-        return SENTINEL
+    if kind in _DEFAULT_OBJECTS:
+        return _DEFAULT_OBJECTS[kind]
     if kind == "callable":
         return lambda: SENTINEL
+    if kind == "callable-object":
+        return _CallableObject()
     raise ValueError(kind)
 
 
-def impl_lookup(h, tags, dr, dt, dkind, nohdr=False):
+BF_SHAPES = ["kw-list", "pos-list", "kw-tuple", "pos-tuple"]
+LK_SHAPES = ["kw", "pos", "mixed", "absent", "kw-tuple"]
+
+
+def call_bf(h, tags, shape="kw-list"):
+    seq = tuple(tags) if shape.endswith("tuple") else list(tags)
+    return h.basic_filtering(seq) if shape.startswith("pos") else h.basic_filtering(language_tags=seq)
+
+
+def impl_bf_raw(h, tags, shape="kw-list"):
+    try:
+        return list(call_bf(h, tags, shape))
+    except Exception as e:  # noqa
+        return Err(type(e).__name__)
+
+
+def impl_bf(h, tags, shape="kw-list"):
+    out = impl_bf_raw(h, tags, shape)
+    return out if isinstance(out, Err) else [[str(t), canon_q(q)] for t, q in out]
+
+
+def call_lookup(h, tags, dr, dt, default, shape="kw"):
+    if shape == "pos":
+        return h.lookup(list(tags), dr, dt, default)
+    if shape == "mixed":
+        return h.lookup(list(tags), dr, default=default, default_tag=dt)
+    if shape == "absent":        # optional arguments that are None are left out
+        kw = {k: v for k, v in (("default_range", dr), ("default_tag", dt), ("default", default)) if v is not None}
+        return h.lookup(list(tags), **kw)
+    seq = tuple(tags) if shape == "kw-tuple" else list(tags)
+    return h.lookup(language_tags=seq, default_range=dr, default_tag=dt, default=default)
+
+
+def impl_lookup_raw(h, tags, dr, dt, dkind, shape="kw"):
+    """(canonical answer, the object returned)"""
+    d = mk_default(dkind)
     try:
         with warnings.catch_warnings():
             warnings.simplefilter("ignore")
-            r = h.lookup(language_tags=list(tags), default_range=dr, default_tag=dt, default=mk_default(dkind))
+            r = call_lookup(h, tags, dr, dt, d, shape)
     except Exception as e:  # noqa
-        return Err(type(e).__name__)
-    if r is SENTINEL or (r == SENTINEL and isinstance(r, str)):
-        return 0
-    if r is None and dkind == "none":
-        return 0
+        return Err(type(e).__name__), None
+    if dkind in ("callable", "callable-object"):
+        if r is SENTINEL:
+            return 0, r
+    elif r is d:
+        return 0, r              # `default` itself (None for dkind none)
     if isinstance(r, str):
-        return r
-    return "unexpected:%r" % (r,)
+        return str(r), r
+    return "unexpected:%r" % (r,), r
+
+
+def impl_lookup(h, tags, dr, dt, dkind, nohdr=False, shape="kw"):
+    return impl_lookup_raw(h, tags, dr, dt, dkind, shape)[0]
 
 
 # =============================================================================== generators
-FIRST = ["en", "de", "zh", "a", "b", "x", "i", "sr"]
-LATER = ["gb", "us", "a", "b", "x", "1", "9", "hant", "cn", "private", "u", "co", "latn", "en"]
+FIRST = ["en", "de", "zh", "a", "b", "x", "i", "sr", "es", "sl"]
+LATER = ["gb", "us", "a", "b", "x", "1", "9", "hant", "cn", "private", "u", "co", "latn", "en",
+         "419", "001", "1994", "1996", "12", "valencia", "rozaj", "biske"]
+# registered-looking ranges with multi-digit numeric subtags (UN M.49 regions, year variants): a numeric subtag of more
+# than one digit is NOT a singleton, so es-419-valencia falls back to es-419 and sl-rozaj-1994-biske to sl-rozaj-1994
+REAL_RANGES = ["es-419-valencia", "sl-rozaj-1994-biske", "de-CH-1996", "en-001", "es-419", "sl-rozaj-biske-1994",
+               "zh-Hant-CN-x-private1-private2", "de-DE-u-co-phonebk", "ca-ES-valencia", "en-a-12-x-9"]
 QS = [None, None, None, ";q=0", ";q=0.0", ";q=0.000", ";q=0.5", ";q=0.50", "; q=0.500", ";q=0.3", " ;q=0.8", ";q=1",
       ";q=1.0", ";Q=0.001", ";q=0.999", ";q=0.5", ";q=0.3"]
 
@@ -225,9 +337,11 @@ ODD_RANGES = ["", "-", "a-", "-a", "en--gb", "en-_-x", "en-\xe9-x", "en-\xb2-x",
               "en-x", "*", "*", "*-a", "en-*", "1-2", "a-b-c-d-e-f"]
 
 
-def rand_case_inputs(rng, allow_empty_tag=True, pool=None):
+def rand_case_inputs(rng, allow_empty_tag=True, pool=None, wide=False):
     if pool is None:
         pool = [rand_range(rng) for _ in range(rng.randrange(1, 5))]
+        if rng.random() < 0.3:
+            pool[rng.randrange(len(pool))] = rng.choice(REAL_RANGES)
     elems = []
     for _ in range(rng.choice([1, 1, 2, 2, 3, 3, 4, 5, 6])):
         if rng.random() < 0.15:
@@ -264,7 +378,22 @@ def rand_case_inputs(rng, allow_empty_tag=True, pool=None):
         dt = derive(rng, rng.choice(pool))
     else:
         dt = rng.choice(tags + ["fallback", ""])
-    dkind = rng.choice(["none", "value", "value", "callable"])
+    dkind = rng.choice(["none", "value", "value", "callable", "callable-object", "zero", "empty", "false"])
+    if tags and rng.random() < 0.25:
+        # an offer equal to the numeric-ending / shorter prefix of a header range, and an equal-text duplicate
+        r = rng.choice(elems)[0]
+        subs = r.split("-")
+        if len(subs) > 1:
+            tags[rng.randrange(len(tags))] = rand_case(rng, "-".join(subs[:rng.randrange(1, len(subs))]))
+        tags.append(rng.choice(tags))
+    if wide and rng.random() < 0.5:
+        # code points >= 256 (outside the Gallina model's domain; the reference uses Python's own predicates)
+        w = rng.choice(WIDE)
+        tags.append(w)
+        if rng.random() < 0.5:
+            dr = rng.choice(WIDE)
+        if rng.random() < 0.3:
+            dt = rng.choice(WIDE)
     return elems, tags, dr, dt, dkind
 
 
@@ -367,13 +496,14 @@ def oracle_history(case):
     with the statement's reference."""
     text = history_text(case)
     via = case.get("via", "class")
-    h = make_header(text, via)
+    elems = [tuple(e) for e in case["elems"]] if case.get("elems") is not None else None
+    h = make_header(text, via, elems)
     snap0 = snapshot(h)
-    parsed = parsed_of([tuple(e) for e in case["elems"]]) if case.get("elems") is not None else None
+    parsed = parsed_of(elems) if elems is not None else None
     done = []
     for i, op in enumerate(case["ops"]):
         h, got = apply_hop(h, op)
-        _, want = apply_hop(make_header(text, via), op)
+        _, want = apply_hop(make_header(text, via, elems), op)
         if got != want:
             return ("history:%s-answer-depends-on-earlier-calls" % op[0],
                     "header %r: call #%d %r on an object that already served %r returned %r, a fresh object returns %r"
@@ -384,14 +514,14 @@ def oracle_history(case):
             later = ""
             for j, op2 in enumerate(case["ops"][i + 1:], i + 1):
                 h, got2 = apply_hop(h, op2)
-                _, want2 = apply_hop(make_header(text, via), op2)
+                _, want2 = apply_hop(make_header(text, via, elems), op2)
                 if got2 != want2:
                     later = "; afterwards call #%d %r returns %r where a fresh object returns %r" % (j, op2, got2, want2)
                     break
             return ("history:%s-changes-the-header-object" % op[0],
                     "header %r: after call #%d %r the object reads %r, before the history it read %r%s"
                     % (text, i, op, snap[2:4], snap0[2:4], later))
-        if parsed is not None and type(h).__name__ == "AcceptLanguageValidHeader":
+        if parsed is not None and snap0[0] in ("AcceptLanguageValidHeader", "MyHeader"):
             if op[0] == "bf" and not isinstance(got, Err):
                 ref = [[t, "float:%r" % (q / 1000.0)] for t, q in ref_basic_filtering(parsed, op[1])]
                 if got != ref:
@@ -482,6 +612,175 @@ def impl_history(case):
 
 
 # =============================================================================== oracle
+# =============================================================================== outside the modelled domain
+# The model (and the statement) take language_tags to be a list of str over code points < 256.  Outside of that the real
+# code is still visited: what remains meaningful is checked (answers where the inputs still make sense, only the
+# documented kind of refusal otherwise, the header object untouched, a following well-formed call answered correctly).
+OUT_CONTAINERS = ["tuple", "set", "frozenset", "dict", "dict_keys", "iter", "generator", "str-subclass-list"]
+OUT_ELEMENTS = ["none", "int", "bytes", "tuple"]
+WIDE = ["\u0130", "i\u0307", "en-\u0130", "EN-\u0130-x", "\u03c3-x", "\u03a3-X", "en-\uff11-x", "en-\uff11", "en-\u0663-x", "en-\u4e2d-x",
+        "en-\u4e2d", "\u01c5", "\u1e9e", "en-\u1e9e", "EN-\u00df", "\U0001d7d9-x", "en-\U0001d7d9-x"]
+
+
+def _container(kind, tags):
+    if kind == "tuple":
+        return tuple(tags)
+    if kind == "set":
+        return set(tags)
+    if kind == "frozenset":
+        return frozenset(tags)
+    if kind == "dict":
+        return {t: i for i, t in enumerate(tags)}
+    if kind == "dict_keys":
+        return {t: i for i, t in enumerate(tags)}.keys()
+    if kind == "iter":
+        return iter(list(tags))
+    if kind == "generator":
+        return (t for t in list(tags))
+    return [_Tag(t) for t in tags]
+
+
+def _odd_element(kind):
+    return {"none": None, "int": 5, "bytes": b"en", "tuple": ("en",)}[kind]
+
+
+def oracle_outside(case):
+    from webob.acceptparse import AcceptLanguageValidHeader
+    elems = [tuple(e) for e in case["elems"]]
+    text, parsed = header_text(elems), parsed_of(elems)
+    h = make_header(text, "create")
+    snap0 = snapshot(h)
+    tags = list(case["tags"])
+    sub = case["sub"]
+    refusal = ("TypeError", "AttributeError", "KeyError")
+    msg = None
+    if sub == "container":
+        cont = _container(case["container"], tags)
+        order = list(cont) if case["container"] not in ("iter", "generator") else list(tags)
+        cont = _container(case["container"], tags) if case["container"] in ("iter", "generator") else cont
+        if case["op"] == "bf":
+            try:
+                got = [[str(t), canon_q(q)] for t, q in h.basic_filtering(cont)]
+            except Exception as e:  # noqa
+                got = Err(type(e).__name__)
+            want = [[str(t), q] for t, q in ref_basic_filtering(parsed, order)]
+        else:
+            d = mk_default("value")
+            try:
+                r = h.lookup(cont, default_range=case["default_range"], default_tag=case["default_tag"], default=d)
+                got = 0 if r is d else r
+            except Exception as e:  # noqa
+                got = Err(type(e).__name__)
+            want = ref_lookup(parsed, order, case["default_range"], case["default_tag"], False)
+        indexable = case["container"] in ("tuple", "str-subclass-list")
+        if got != want and (indexable or not (isinstance(got, Err) and got.name in refusal)):
+            msg = ("outside:non-list-tags-wrong-answer",
+                   "%s on a %s of %r for header %r gives %r; expected %r%s"
+                   % (case["op"], case["container"], order, text, got, want, "" if indexable else " or TypeError/KeyError"))
+    elif sub == "element":
+        bad = _odd_element(case["element"])
+        tags2 = list(tags)
+        tags2.insert(case["at"] % (len(tags2) + 1), bad)
+        try:
+            if case["op"] == "bf":
+                # the odd element itself may come back (bytes offered to a header that is only '*'): not judged
+                got = [[t, canon_q(q)] for t, q in h.basic_filtering(tags2) if t is not bad]
+            else:
+                d = mk_default("value")
+                r = h.lookup(tags2, default_tag=case["default_tag"], default=d)
+                got = 0 if r is d else r
+        except Exception as e:  # noqa
+            got = Err(type(e).__name__)
+        if isinstance(got, Err):
+            if got.name not in refusal:
+                msg = ("outside:non-str-tag-unexpected-exception", "%s with offers %r raises %s" % (case["op"], tags2, got.name))
+        else:
+            # it got through (bytes never equal a str): the answer must be the one for the well-formed offers
+            want = ([[str(t), q] for t, q in ref_basic_filtering(parsed, tags)] if case["op"] == "bf"
+                    else ref_lookup(parsed, tags, None, case["default_tag"], False))
+            if got != want:
+                msg = ("outside:non-str-tag-changes-the-answer", "%s with offers %r for header %r gives %r, without the odd "
+                       "element the statement gives %r" % (case["op"], tags2, text, got, want))
+    elif sub == "default":
+        dk = case["dkind"]
+        if dk == "raises-TypeError":
+            def d():
+                raise TypeError("inside the callable")
+        elif dk == "raises-ValueError":
+            def d():
+                raise ValueError("inside the callable")
+        elif dk == "needs-argument":
+            def d(x):
+                return x
+        elif dk == "class":
+            d = list
+        hit = ref_lookup(parsed, tags, case["default_range"], case["default_tag"], False)
+        try:
+            r = h.lookup(tags, default_range=case["default_range"], default_tag=case["default_tag"], default=d)
+            got = r
+        except Exception as e:  # noqa
+            got = Err(type(e).__name__)
+        if hit != 0:
+            ok = got == hit                      # `default` is not reached
+        elif dk == "raises-ValueError":
+            ok = got == Err("ValueError")
+        elif dk == "class":
+            ok = got == []
+        else:
+            ok = got is d or got == Err("TypeError")   # documented: "if default is not a callable the value itself"
+        if not ok:
+            msg = ("outside:odd-default-callable", "lookup(%r, %r, %r, default=<%s>) for header %r gives %r (statement's answer "
+                   "before `default`: %r)" % (tags, case["default_range"], case["default_tag"], dk, text, got, hit))
+    elif sub == "odd-default-args":
+        dr, dt = case["default_range"], case["default_tag"]
+        dr = dr.encode() if case.get("bytes_range") and dr is not None else dr
+        dt = 7 if case.get("int_tag") else dt
+        d = mk_default("value")
+        hit = ref_lookup(parsed, tags, None, None, False)
+        try:
+            r = h.lookup(tags, default_range=dr, default_tag=dt, default=d)
+            got = 0 if r is d else r
+        except Exception as e:  # noqa
+            got = Err(type(e).__name__)
+        if hit != 0 and got != hit:
+            msg = ("outside:odd-default-args-change-a-header-match", "lookup(%r, default_range=%r, default_tag=%r) for header %r "
+                   "gives %r although the header itself selects %r" % (tags, dr, dt, text, got, hit))
+        elif isinstance(got, Err) and got.name not in refusal:
+            msg = ("outside:odd-default-args-unexpected-exception", "lookup(%r, default_range=%r, default_tag=%r) raises %s"
+                   % (tags, dr, dt, got.name))
+    if msg:
+        return msg
+    if snapshot(h) != snap0:
+        return ("outside:refused-call-changes-the-header-object", "after %r the header object for %r reads %r" % (case, text, snapshot(h)[2:4]))
+    got, want = impl_bf(h, tags), ref_basic_filtering(parsed, tags)
+    if got != want:
+        return ("outside:later-call-wrong", "after %r, basic_filtering(%r) for %r gives %r, expected %r" % (case, tags, text, got, want))
+    return None
+
+
+def rand_outside(rng):
+    elems, tags, dr, dt, _ = rand_case_inputs(rng, allow_empty_tag=False)
+    base = {"kind": "outside", "elems": [list(e) for e in elems], "tags": tags, "op": rng.choice(["bf", "lookup"]),
+            "default_range": dr if dr != "*" else None, "default_tag": dt}
+    sub = rng.choice(["container", "container", "element", "default", "odd-default-args"])
+    base["sub"] = sub
+    if sub == "container":
+        base["container"] = rng.choice(OUT_CONTAINERS)
+        if base["container"] in ("dict", "dict_keys", "set", "frozenset"):
+            base["tags"] = list(dict.fromkeys(tags))
+    elif sub == "element":
+        base["element"] = rng.choice(OUT_ELEMENTS)
+        base["at"] = rng.randrange(8)
+    elif sub == "default":
+        base["op"] = "lookup"
+        base["dkind"] = rng.choice(["raises-TypeError", "raises-ValueError", "needs-argument", "class"])
+    else:
+        base["op"] = "lookup"
+        base["bytes_range"] = rng.random() < 0.5
+        base["int_tag"] = rng.random() < 0.5
+    return base
+
+
 def classify_bf(got, want):
     if isinstance(got, Err):
         return "basic_filtering:raises-" + got.name
@@ -510,51 +809,77 @@ def oracle_case(case):
     """Evaluate the statement on the implementation for one case dict.  Returns (key, message) or None."""
     kind = case["kind"]
     if kind == "valid":
+        from webob.acceptparse import AcceptLanguageValidHeader
         elems = [tuple(e) for e in case["elems"]]
         text = header_text(elems)
         parsed = parsed_of(elems)
-        h = make_header(text, case.get("via", "class"))
-        if type(h).__name__ != "AcceptLanguageValidHeader":
-            return ("glue:valid-header-not-recognised", "header %r gives %s" % (text, type(h).__name__))
+        via = case.get("via", "class")
+        h = make_header(text, via, elems)
+        if not isinstance(h, AcceptLanguageValidHeader):
+            return ("glue:valid-header-not-recognised", "header %r (route %s) gives %s" % (text, via, type(h).__name__))
         if impl_parsed(h) != parsed:
-            return ("glue:parsed-differs", "header %r parsed as %r, expected %r" % (text, impl_parsed(h), parsed))
-        tags = case["tags"]
-        if case["op"] == "bf":
-            got, want = impl_bf(h, tags), ref_basic_filtering(parsed, tags)
-            if got != want:
-                return (classify_bf(got, want),
-                        "AcceptLanguageValidHeader(%r).basic_filtering(%r) = %r, RFC 4647 3.3.1 reading gives %r"
-                        % (text, tags, got, want))
-            return None
-        dr, dt, dk = case["default_range"], case["default_tag"], case["default"]
-        got, want = impl_lookup(h, tags, dr, dt, dk), ref_lookup(parsed, tags, dr, dt, dk == "none")
-        if got != want:
+            return ("glue:parsed-differs", "header %r (route %s) parsed as %r, expected %r" % (text, via, impl_parsed(h), parsed))
+        tags = [_Tag(t) for t in case["tags"]]          # distinct objects, also for equal texts
+        shape = case.get("shape")
+        with warnings.catch_warnings():
+            # neither method is deprecated: with warnings turned into errors they must behave the same
+            warnings.simplefilter("error" if case.get("warn_error") else "ignore")
+            if case["op"] == "bf":
+                raw, wantraw = impl_bf_raw(h, tags, shape or "kw-list"), ref_basic_filtering(parsed, tags)
+                got = raw if isinstance(raw, Err) else [[str(t), canon_q(q)] for t, q in raw]
+                want = [[str(t), q] for t, q in wantraw]
+                if got != want:
+                    return (classify_bf(got, want),
+                            "AcceptLanguageValidHeader(%r)[%s].basic_filtering(%r)[%s] = %r, RFC 4647 3.3.1 reading gives %r"
+                            % (text, via, case["tags"], shape, got, want))
+                if any(a[0] is not b[0] for a, b in zip(raw, wantraw)):
+                    return ("basic_filtering:returns-equal-but-not-the-offered-object",
+                            "AcceptLanguageValidHeader(%r).basic_filtering(%r) returns tags that are not the offered "
+                            "objects language_tags[index] (positions %r)"
+                            % (text, case["tags"], [k for k, (a, b) in enumerate(zip(raw, wantraw)) if a[0] is not b[0]]))
+                return None
+            dr, dt, dk = case["default_range"], case["default_tag"], case["default"]
+            dt = None if dt is None else _Tag(dt)
+            (got, raw), want = impl_lookup_raw(h, tags, dr, dt, dk, shape or "kw"), ref_lookup(parsed, tags, dr, dt, dk == "none")
+        wantc = str(want) if isinstance(want, str) else want
+        if got != wantc:
             if got == "" and "" in tags:
                 # the specific defect "an offered '' is returned once a range has been truncated away": without the
                 # empty offers the implementation agrees with the statement
                 t2 = [t for t in tags if t != ""]
+                w2 = ref_lookup(parsed, t2, dr, dt, dk == "none")
                 case = dict(case, _agrees_without_empty_tags=(impl_lookup(h, t2, dr, dt, dk) ==
-                                                              ref_lookup(parsed, t2, dr, dt, dk == "none")))
-            return (classify_lookup(case, got, want),
-                    "AcceptLanguageValidHeader(%r).lookup(%r, default_range=%r, default_tag=%r, default=<%s>) = %r, "
-                    "RFC 4647 3.4 reading gives %r (0 = the default object)" % (text, tags, dr, dt, dk, got, want))
+                                                              (str(w2) if isinstance(w2, str) else w2)))
+            return (classify_lookup(case, got, wantc),
+                    "AcceptLanguageValidHeader(%r)[%s].lookup(%r, default_range=%r, default_tag=%r, default=<%s>)[%s] = %r, "
+                    "RFC 4647 3.4 reading gives %r (0 = the default object)" % (text, via, case["tags"], dr, dt, dk, shape, got, wantc))
+        if isinstance(want, str) and raw is not want:
+            return ("lookup:returns-equal-but-not-the-offered-object",
+                    "AcceptLanguageValidHeader(%r).lookup(%r, default_tag=%r) returns a str equal to %r that is not the "
+                    "offered object itself (first equal offer / default_tag)" % (text, case["tags"], dt, wantc))
         return None
     if kind == "nohdr":
         text = case["header"]
-        h = make_header(text, case.get("via", "class"))
+        via = case.get("via", "class")
+        h = make_header(text, via)
         cls = type(h).__name__
         want_cls = "AcceptLanguageNoHeader" if text is None else "AcceptLanguageInvalidHeader"
         if cls != want_cls:
-            return ("glue:invalid-header-class", "header %r gives %s, expected %s" % (text, cls, want_cls))
-        tags = case["tags"]
-        got = impl_bf(h, tags)
+            return ("glue:invalid-header-class", "header %r (route %s) gives %s, expected %s" % (text, via, cls, want_cls))
+        tags = [_Tag(t) for t in case["tags"]]
+        got = impl_bf(h, tags, case.get("shape") or "kw-list")
         if got != []:
             return ("nohdr:basic_filtering-not-empty", "%s(%r).basic_filtering(%r) = %r, expected []" % (cls, text, tags, got))
         dr, dt, dk = case["default_range"], case["default_tag"], case["default"]
-        got, want = impl_lookup(h, tags, dr, dt, dk), ref_lookup_nohdr(dt, dk == "none")
-        if got != want:
-            return ("nohdr:lookup-cascade", "%s(%r).lookup(%r, %r, %r, <%s>) = %r, expected %r" % (cls, text, tags, dr, dt, dk, got, want))
+        dt = None if dt is None else _Tag(dt)
+        (got, raw), want = impl_lookup_raw(h, tags, dr, dt, dk, case.get("lshape") or "kw"), ref_lookup_nohdr(dt, dk == "none")
+        wantc = str(want) if isinstance(want, str) else want
+        if got != wantc or (isinstance(want, str) and raw is not want):
+            return ("nohdr:lookup-cascade", "%s(%r)[%s].lookup(%r, %r, %r, <%s>) = %r, expected %r (the default_tag object itself)"
+                    % (cls, text, via, case["tags"], dr, dt, dk, got, wantc))
         return None
+    if kind == "outside":
+        return oracle_outside(case)
     if kind == "history":
         return oracle_history(case)
     if kind == "trunc":
@@ -618,10 +943,10 @@ def run_oracle(ctx, name, case, nontrivial=True):
 
 
 def exhaustive_cases(depth_hdr, depth_tags, rich):
-    ranges = ["a", "a-b", "a-b-c", "ab", "a-x-c", "*"]
+    ranges = ["a", "a-b", "a-b-c", "ab", "a-x-c", "a-12-c", "*"]
     qs = [None, ";q=0", ";q=0.5"]
     elem_u = [(r, q) for r in ranges for q in qs]
-    tag_u = ["a", "A-b", "a-b-c", "a-x", "ab", "a-x-c", ""]
+    tag_u = ["a", "A-b", "a-b-c", "a-x", "ab", "a-x-c", "a-12", ""]
     tag_lists = [[]]
     for d in range(1, depth_tags + 1):
         tag_lists += [list(t) for t in itertools.product(tag_u, repeat=d)]
@@ -631,7 +956,7 @@ def exhaustive_cases(depth_hdr, depth_tags, rich):
         defaults += [("ab-x-y", "a-b-c", "callable"), (None, None, "none"), ("*", "a", "value"), (None, "a", "none")]
     for d in range(1, depth_hdr + 1):
         for elems in itertools.product(elem_u, repeat=d):
-            for tags in tag_lists:
+            for tags in (tag_lists if d < 3 else [t for t in tag_lists if len(t) <= 1]):
                 yield {"kind": "valid", "op": "bf", "elems": [list(e) for e in elems], "tags": tags}
                 for dr, dt, dk in defaults:
                     yield {"kind": "valid", "op": "lookup", "elems": [list(e) for e in elems], "tags": tags,
@@ -639,7 +964,10 @@ def exhaustive_cases(depth_hdr, depth_tags, rich):
 
 
 def trunc_cases(maxlen):
-    subs = ["en", "a", "1", "xy"]
+    subs = ["en", "a", "1", "xy", "419"]
+    for r in REAL_RANGES:
+        yield {"kind": "trunc", "range": r}
+        yield {"kind": "trunc", "range": r.upper(), "via_default_range": True}
     for n in range(1, maxlen + 1):
         for first in ["en", "a"]:
             for rest in itertools.product(subs, repeat=n - 1):
@@ -669,6 +997,8 @@ ORACLE_ONLY = [
     "webob.acceptparse:accept_language_property",
     "webob.request:BaseRequest.accept_language",
     "webob.acceptparse:AcceptLanguage.parse",
+    "webob.acceptparse:AcceptLanguage._python_value_to_header_str",
+    "webob.acceptparse:_item_qvalue_pair_to_header_element",
     "webob.acceptparse:AcceptLanguage.lang_range_n_weight_compiled_re",
     "webob.acceptparse:AcceptLanguage.accept_language_compiled_re",
     "webob.acceptparse:AcceptLanguageValidHeader.header_value",
@@ -695,15 +1025,23 @@ ORACLE_ONLY = [
 
 
 def run(ctx):
+    import time as _time
+    _t = [_time.time()]
+
+    def lap(name):
+        now = _time.time()
+        ctx.note("section %s: %.1fs" % (name, now - _t[0]))
+        _t[0] = now
     ctx.modelled(MODELLED)
     ctx.extra["regenerated_from_source"] = REGENERATED
     ctx.extra["oracle_only"] = ORACLE_ONLY
     ctx.build(["Props/C05.vo"])
     warnings.simplefilter("ignore")
 
+    lap("build")
     # ---------------------------------------------------------------- correspondence
     rng = ctx.sub_rng("corr")
-    n = ctx.scale(1500, 8000)
+    n = ctx.scale(1000, 8000)
     bf_cases, lk_cases = [], []
     for i in range(n):
         elems, tags, dr, dt, dk = rand_case_inputs(rng)
@@ -723,7 +1061,7 @@ def run(ctx):
                          dict(base, op="lookup", default_range=dr, default_tag=dt, default=dk)))
     for name, fn, cases, ty in (("basic_filtering", "(fun c => bf_val (fst c) (snd c))", bf_cases, "(parsed * list str)"),
                                 ("lookup", "lookup_val", lk_cases, "lookup_args")):
-        bad = ctx.corr(name, IMPORTS, fn, cases, in_type=ty)
+        bad = ctx.corr(name, IMPORTS, fn, cases, in_type=ty, shard=130)
         for i in bad[:8]:
             case = cases[i][2]
             r = oracle_case(case)
@@ -778,7 +1116,7 @@ def run(ctx):
         obs = impl_history(case)
         parsed0 = parsed_of([tuple(e) for e in case["elems"]])
         h_cases.append((cpair(cparsed(parsed0), clist(chop(o) for o in case["ops"])), obs, case))
-    bad = ctx.corr("history", IMPORTS, "history_val", h_cases, in_type="(parsed * list hop)")
+    bad = ctx.corr("history", IMPORTS, "history_val", h_cases, in_type="(parsed * list hop)", shard=60)
     for i in bad[:8]:
         case = h_cases[i][2]
         r = oracle_case(case)
@@ -788,6 +1126,7 @@ def run(ctx):
             ctx.broken.append("correspondence history: model and implementation disagree on %s (impl gives %r)"
                               % (json.dumps(case), h_cases[i][1]))
 
+    lap("correspondence")
     # ---------------------------------------------------------------- oracle: histories on one object
     cnt = 0
     for case in exhaustive_histories(2):
@@ -804,10 +1143,14 @@ def run(ctx):
     m3 = ctx.scale(6000, 80000)
     for i in range(m3):
         case = rand_history(r3, 6) if i % 5 else rand_history_nohdr(r3, 6)
-        case["via"] = "request" if i % 7 == 0 else "class"
+        if case.get("elems") is not None:
+            case["via"] = r3.choice(VIAS_VALID)
+        else:
+            case["via"] = r3.choice([v for v in VIAS_NOHDR if v != "request-del" or case["header"] is None])
         run_oracle(ctx, "history", case)
     ctx.oracle_count("history", m3, m3)
 
+    lap("oracle-histories")
     # ---------------------------------------------------------------- oracle: exhaustive small universes
     cnt = nt = 0
     for case in exhaustive_cases(ctx.scale(2, 3), ctx.scale(2, 2), ctx.thorough):
@@ -820,27 +1163,37 @@ def run(ctx):
         run_oracle(ctx, "truncation", case)
     ctx.oracle_count("truncation", cnt, cnt)
 
+    lap("oracle-exhaustive")
     # ---------------------------------------------------------------- oracle: random, both entry points
     r2 = ctx.sub_rng("oracle")
-    m = ctx.scale(40000, 500000)
+    m = ctx.scale(25000, 500000)
     nontriv = 0
     for i in range(m):
-        elems, tags, dr, dt, dk = rand_case_inputs(r2)
-        via = "request" if i % 10 == 0 else "class"
-        base = {"kind": "valid", "elems": [list(e) for e in elems], "tags": tags, "via": via}
-        run_oracle(ctx, "random", dict(base, op="bf"))
-        run_oracle(ctx, "random", dict(base, op="lookup", default_range=dr, default_tag=dt, default=dk))
+        elems, tags, dr, dt, dk = rand_case_inputs(r2, wide=(i % 4 == 0))
+        via = r2.choice(VIAS_VALID) if i % 2 else "create"
+        base = {"kind": "valid", "elems": [list(e) for e in elems], "tags": tags, "via": via, "warn_error": i % 8 == 3}
+        run_oracle(ctx, "random", dict(base, op="bf", shape=r2.choice(BF_SHAPES)))
+        run_oracle(ctx, "random", dict(base, op="lookup", default_range=dr, default_tag=dt, default=dk,
+                                       shape=r2.choice(LK_SHAPES)))
         if tags:
             nontriv += 2
     ctx.oracle_count("random", 2 * m, nontriv)
     m2 = ctx.scale(1500, 20000)
     for i in range(m2):
         text = r2.choice(INVALID_HEADERS + [None, None, None])
-        _, tags, dr, dt, dk = rand_case_inputs(r2)
+        _, tags, dr, dt, dk = rand_case_inputs(r2, wide=(i % 4 == 0))
         run_oracle(ctx, "nohdr", {"kind": "nohdr", "header": text, "tags": tags, "default_range": dr, "default_tag": dt,
-                                  "default": dk, "via": "request" if i % 5 == 0 else "class"})
+                                  "default": dk, "shape": r2.choice(BF_SHAPES), "lshape": r2.choice(LK_SHAPES),
+                                  "via": r2.choice([v for v in VIAS_NOHDR if v != "request-del" or text is None])})
     ctx.oracle_count("nohdr", m2, m2)
+    # outside the modelled domain (non-list containers, non-str offers, odd default arguments / callables)
+    m4 = ctx.scale(6000, 60000)
+    r5 = ctx.sub_rng("outside")
+    for i in range(m4):
+        run_oracle(ctx, "outside-domain", rand_outside(r5))
+    ctx.oracle_count("outside-domain", m4, m4)
 
+    lap("oracle-random")
     ctx.extra["rule"] = (
         "correspondence: random valid headers (1-6 elements drawn from a per-case pool of 1-5-subtag ranges incl. single-"
         "letter/digit subtags, repeated ranges, '*', q in {absent,0,0.0,0.001,0.3,0.5,0.8,0.999,1}, mixed case), 0-6 tags "
@@ -854,6 +1207,13 @@ def run(ctx):
         "answer compared with the same call on a brand-new object and the object's state (.parsed, header_value, str, "
         "repr, bool, class, _parsed_nonzero) compared with its initial state after every call; exhaustive: all headers "
         "of 2-3 elements over {a,b,*} x 4 qualities containing a repeat x all call pairs from 8 calls"
+        "; construction routes varied in the oracle: create_accept_language_header, the constructors, a user subclass, "
+        "Request headers / environ / Request subclass, request.accept_language set after construction (str, list/tuple of "
+        "pairs, header object, None, del), copy(), header + str / header / list and reflected; call shapes: positional / "
+        "keyword / mixed / optional arguments left out, list vs tuple; default in {None, value, function, callable object, "
+        "0, '', False}; offers are str-subclass instances so the returned object's identity is checked; 1 case in 8 with "
+        "warnings as errors; 1 in 4 with code points >= 256; outside-domain stream: set/frozenset/dict/keys/iterator/"
+        "generator containers, None/int/bytes/tuple offers, bytes default_range, int default_tag, raising callables"
         % (ctx.scale(2, 3), ctx.scale(5, 9), ctx.scale(5, 7)))
     ctx.assume += [
         "language_tags is a list of str (generators/sets, which webob indexes with [index], are outside the statement)",
